@@ -79,52 +79,43 @@ def deep_contains(W, t, pred, depth=0):
     return False
 
 
-def fold_reach(fn, ev, env_fn, cond_fn=None):
-    """Blocks reachable when every branch whose condition is decidable under env_fn(term)->int|None is folded."""
-    seen = {0}
-    work = [0]
-    while work:
-        b = work.pop()
+def fold_reach(fn, ev, env_fn, cond_fn=None, untracked=()):
+    """Blocks reachable when every branch whose condition is decidable under env_fn(term)->int|None is folded (and, along each path, the
+    boolean / variant values the path itself assigned are respected: a helper `fn ok(..) -> bool` inlined back is followed precisely)."""
+    def decide(b):
         t = fn.blocks[b].term
-        succs = fn.succ(b)
-        if t["k"] == "switch" and t.get("ty") == "bool":
-            cond = ev.op(t["op"], (b, "term"))
-            rels = flow.relational(("eq", cond, True))
-            forced = cond_fn(cond) if cond_fn else None
-            if forced is not None:
-                tgt = t["otherwise"]
-                if not forced:
-                    for val, bb in t["cases"]:
-                        if val == 0:
-                            tgt = bb
-                for s2 in [tgt]:
-                    if s2 not in seen:
-                        seen.add(s2)
-                        work.append(s2)
-                continue
-            env = {}
-            for r in rels:
-                for s in values.subterms((r[1], r[2])):
-                    v = env_fn(s)
-                    if v is not None:
-                        env[s] = v
-            hs = [rel_holds(r, env) for r in rels]
-            if hs and all(h is not None for h in hs):
-                truth = all(hs)
-                tgt = t["otherwise"]
+        if not (t["k"] == "switch" and t.get("ty") == "bool"):
+            return None
+        cond = ev.op(t["op"], (b, "term"))
+        rels = flow.relational(("eq", cond, True))
+        forced = cond_fn(cond) if cond_fn else None
+        if forced is not None:
+            tgt = t["otherwise"]
+            if not forced:
                 for val, bb in t["cases"]:
-                    if val == (1 if truth else 0):
+                    if val == 0:
                         tgt = bb
-                if not truth and not any(val == 0 for val, bb in t["cases"]):
-                    tgt = t["otherwise"]
-                if truth and any(val == 0 for val, bb in t["cases"]):
-                    tgt = t["otherwise"]
-                succs = [tgt]
-        for s2 in succs:
-            if s2 not in seen:
-                seen.add(s2)
-                work.append(s2)
-    return seen
+            return [tgt]
+        env = {}
+        for r in rels:
+            for s in values.subterms((r[1], r[2])):
+                v = env_fn(s)
+                if v is not None:
+                    env[s] = v
+        hs = [rel_holds(r, env) for r in rels]
+        if hs and all(h is not None for h in hs):
+            truth = all(hs)
+            tgt = t["otherwise"]
+            for val, bb in t["cases"]:
+                if val == (1 if truth else 0):
+                    tgt = bb
+            if not truth and not any(val == 0 for val, bb in t["cases"]):
+                tgt = t["otherwise"]
+            if truth and any(val == 0 for val, bb in t["cases"]):
+                tgt = t["otherwise"]
+            return [tgt]
+        return None
+    return fn.feasible_walk(0, decide=decide, untracked=untracked)
 
 
 def run(ctx):
@@ -369,7 +360,7 @@ def run(ctx):
             return None
         reach = {}
         for v in grid:
-            reach[v] = fold_reach(iv, iev, lambda s, v=v, key=key: v if (is_call(s) and TRAIT in s[1] and callee_name(s[1]) == key) else None)
+            reach[v] = fold_reach(iv, iev, lambda s, v=v, key=key: v if (is_call(s) and TRAIT in s[1] and callee_name(s[1]) == key) else None, untracked=(flag,))
         sensitive = [fb for fb in fblocks if len({fb in reach[v] for v in grid}) > 1]
         if not sensitive:
             ctx.violation("range-checks", key + "/present", "no `is_valid = false` site depends on %s()" % key, ctx.loc(iv))
@@ -426,7 +417,7 @@ def run(ctx):
             if is_call(c2) and callee_name(c2[1]) == "is_empty" and is_call(c2[2][0]) and c2[2][0][1].endswith("ServerConfig::seed"):
                 return (v == 0) != neg
             return None
-        sreach[v] = fold_reach(iv, iev, env_fn, cond_fn)
+        sreach[v] = fold_reach(iv, iev, env_fn, cond_fn, untracked=(flag,))
     sens = [fb for fb in fblocks if len({fb in sreach[v] for v in grid}) > 1]
     bad = None
     for v in grid:
